@@ -39,7 +39,7 @@ m = {
     "hooks": {
         "guard": "verif",
         "enable": "none needed: the checker only reads /repo's sources with go/packages; nothing of /repo is built with hooks or executed",
-        "baseline_off_cmd": "cd /repo && go test -vet=off -count=1 -timeout 25m ./...",
+        "baseline_off_cmd": "for m in . ./fuzzy ./raft-compat; do (cd /repo/$m && go test -mod=mod -vet=off -count=1 -timeout 25m ./...); done",
         "source_commits": [],
         "add_only": True,
     },
